@@ -89,7 +89,8 @@ class BMPWriter:
 
     def write_line(self, y: int, data: bytes) -> None:
         self.fp.seek(self.pos1 - (y + 1) * self.linesize)
-        self.fp.write(data)
+        # every stored row is linesize bytes: pad to the 4-byte boundary
+        self.fp.write(data.ljust(self.linesize, b"\x00"))
 
 
 class ImageWriter:
